@@ -739,4 +739,203 @@ theorem rotAt_thinned (L : Lat) (v : Nat) (keep : Nat → Bool) (hnz : ∀ e ∈
 
 end Thinned
 
+section Renumbered
+open Lat AngOrder
+/-! ### the rotation system of the lattice with edges deleted *and renumbered* -/
+
+/-- number of kept indices in `[k, k + n)` -/
+def rankFrom (keep : Nat → Bool) (k n : Nat) : Nat := ((List.range' k n).filter keep).length
+
+/-- new index of the kept row `e`: the number of kept rows before it -/
+def rank (keep : Nat → Bool) (e : Nat) : Nat := rankFrom keep 0 e
+
+theorem filterIdx_getD_aux {α : Type} (keep : Nat → Bool) (d : α) :
+    ∀ (xs : List α) (k n : Nat), keep (k + n) = true →
+      (((xs.zipIdx k).filter fun p => keep p.2).map (·.1)).getD (rankFrom keep k n) d = xs.getD n d := by
+  intro xs
+  induction xs with
+  | nil => intro k n _; simp
+  | cons x xs ih =>
+    intro k n hk
+    cases n with
+    | zero =>
+      simp only [Nat.add_zero] at hk
+      simp [rankFrom, List.zipIdx_cons, List.filter_cons, hk]
+    | succ n =>
+      have hk' : keep (k + 1 + n) = true := by rw [Nat.add_assoc, Nat.add_comm 1 n]; exact hk
+      have hr : rankFrom keep k (n + 1) = (if keep k then 1 else 0) + rankFrom keep (k + 1) n := by
+        unfold rankFrom
+        rw [List.range'_succ, List.filter_cons]
+        split <;> simp [Nat.add_comm]
+      rw [hr]
+      simp only [List.zipIdx_cons, List.filter_cons]
+      by_cases h : keep k = true
+      · simp only [h, if_true, List.map_cons]
+        rw [Nat.add_comm 1, List.getD_cons_succ, List.getD_cons_succ]
+        exact ih (k + 1) n hk'
+      · simp only [h, Bool.false_eq_true, if_false, Nat.zero_add, List.getD_cons_succ]
+        exact ih (k + 1) n hk'
+
+/-- **row `e` of the input is row `rank e` of the masked array** -/
+theorem filterIdx_getD {α : Type} (keep : Nat → Bool) (xs : List α) (d : α) (e : Nat) (he : keep e = true) :
+    (filterIdx keep xs).getD (rank keep e) d = xs.getD e d := by
+  unfold filterIdx rank
+  exact filterIdx_getD_aux keep d xs 0 e (by simpa using he)
+
+theorem rankFrom_succ (keep : Nat → Bool) (k n : Nat) :
+    rankFrom keep k (n + 1) = (if keep k then 1 else 0) + rankFrom keep (k + 1) n := by
+  unfold rankFrom
+  rw [List.range'_succ, List.filter_cons]
+  split <;> simp [Nat.add_comm]
+
+theorem filterIdx_length_aux {α : Type} (keep : Nat → Bool) :
+    ∀ (xs : List α) (k : Nat), (((xs.zipIdx k).filter fun p => keep p.2).map (·.1)).length = rankFrom keep k xs.length := by
+  intro xs
+  induction xs with
+  | nil => intro k; simp [rankFrom]
+  | cons x xs ih =>
+    intro k
+    rw [List.length_cons, rankFrom_succ]
+    simp only [List.zipIdx_cons, List.filter_cons]
+    by_cases h : keep k = true
+    · simp only [h, if_true, List.map_cons, List.length_cons]
+      rw [ih (k + 1)]; omega
+    · simp only [h, Bool.false_eq_true, if_false, Nat.zero_add]
+      exact ih (k + 1)
+
+theorem filterIdx_length {α : Type} (keep : Nat → Bool) (xs : List α) : (filterIdx keep xs).length = rank keep xs.length := by
+  unfold filterIdx rank; exact filterIdx_length_aux keep xs 0
+
+/-- the kept indices, renumbered, are `0, 1, 2, …` -/
+theorem kept_map_rank_aux (keep : Nat → Bool) :
+    ∀ (n k c : Nat), ((List.range' k n).filter keep).map (fun e => c + rankFrom keep k (e - k)) = List.range' c (rankFrom keep k n) := by
+  intro n
+  induction n with
+  | zero => intro k c; simp [rankFrom]
+  | succ n ih =>
+    intro k c
+    rw [rankFrom_succ, List.range'_succ, List.filter_cons]
+    have hmem : ∀ e ∈ (List.range' (k + 1) n).filter keep, k + 1 ≤ e := by
+      intro e he
+      have := (List.mem_range'_1.mp (List.mem_filter.mp he).1).1
+      exact this
+    by_cases h : keep k = true
+    · simp only [h, if_true, List.map_cons, Nat.sub_self]
+      have h0 : rankFrom keep k 0 = 0 := by simp [rankFrom]
+      rw [h0, Nat.add_zero, Nat.add_comm 1, List.range'_succ]
+      congr 1
+      rw [← ih (k + 1) (c + 1)]
+      apply List.map_congr_left
+      intro e he
+      have hk := hmem e he
+      have : e - k = (e - (k + 1)) + 1 := by omega
+      rw [this, rankFrom_succ]
+      simp only [h, if_true]; omega
+    · simp only [h, Bool.false_eq_true, if_false, Nat.zero_add]
+      rw [← ih (k + 1) c]
+      apply List.map_congr_left
+      intro e he
+      have hk := hmem e he
+      have : e - k = (e - (k + 1)) + 1 := by omega
+      rw [this, rankFrom_succ]
+      simp only [h, Bool.false_eq_true, if_false, Nat.zero_add]
+
+theorem kept_map_rank (keep : Nat → Bool) (n : Nat) :
+    ((List.range n).filter keep).map (rank keep) = List.range (rank keep n) := by
+  have := kept_map_rank_aux keep n 0 0
+  simp only [Nat.zero_add, Nat.sub_zero] at this
+  rw [List.range_eq_range', List.range_eq_range']
+  exact this
+
+/-- the lattice with the rows failing `keep` deleted from the edge and crossing arrays (`cut_boundaries` is the case `keep = cutKeep`) -/
+def thin (L : Lat) (keep : Nat → Bool) : Lat := { L with edges := filterIdx keep L.edges, cross := filterIdx keep L.cross }
+
+theorem cut_eq_thin (L : Lat) (bx bY : Bool) : cut L bx bY = thin L (cutKeep L bx bY) := rfl
+
+theorem thin_E (L : Lat) (keep : Nat → Bool) : (thin L keep).E = rank keep L.E := filterIdx_length keep L.edges
+
+theorem thin_endsOf (L : Lat) (keep : Nat → Bool) (e : Nat) (he : keep e = true) : (thin L keep).endsOf (rank keep e) = L.endsOf e :=
+  filterIdx_getD keep L.edges (0, 0) e he
+
+theorem thin_crossOf (L : Lat) (keep : Nat → Bool) (e : Nat) (he : keep e = true) : (thin L keep).crossOf (rank keep e) = L.crossOf e :=
+  filterIdx_getD keep L.cross (0, 0) e he
+
+theorem thin_evec (L : Lat) (keep : Nat → Bool) (e : Nat) (he : keep e = true) : (thin L keep).evec (rank keep e) = L.evec e := by
+  unfold Lat.evec
+  rw [thin_endsOf L keep e he, thin_crossOf L keep e he]
+  rfl
+
+theorem thin_outVec (L : Lat) (keep : Nat → Bool) (v e : Nat) (he : keep e = true) :
+    outVec (thin L keep) v (rank keep e) = outVec L v e := by
+  unfold outVec
+  rw [thin_endsOf L keep e he, thin_evec L keep e he]
+
+/-- the edges at `v` in the thinned lattice are the kept edges at `v`, renumbered, in the same order -/
+theorem thin_incident (L : Lat) (keep : Nat → Bool) (v : Nat) :
+    incident (thin L keep) v = ((incident L v).filter keep).map (rank keep) := by
+  unfold incident
+  rw [thin_E, ← kept_map_rank keep L.E, List.filter_map, List.filter_filter, List.filter_filter]
+  congr 1
+  apply List.filter_congr
+  intro e _
+  by_cases hk : keep e = true
+  · simp only [Function.comp, thin_endsOf L keep e hk, hk, Bool.and_true, Bool.true_and]
+  · have hk' : keep e = false := by simpa using hk
+    simp only [hk', Bool.and_false, Bool.false_and]
+
+theorem insertDesc_map (key key' : Nat → Int × Int) (f : Nat → Nat) (e : Nat) (l : List Nat)
+    (h : ∀ x, x = e ∨ x ∈ l → key' (f x) = key x) : insertDesc key' (f e) (l.map f) = (insertDesc key e l).map f := by
+  induction l with
+  | nil => rfl
+  | cons x xs ih =>
+    simp only [List.map_cons]
+    unfold insertDesc
+    rw [h x (Or.inr (by simp)), h e (Or.inl rfl)]
+    split
+    · simp
+    · simp only [List.map_cons]
+      rw [ih (fun y hy => h y (by rcases hy with hy | hy; exact Or.inl hy; exact Or.inr (List.mem_cons_of_mem _ hy)))]
+
+theorem foldl_insertDesc_map (key key' : Nat → Int × Int) (f : Nat → Nat) (l acc : List Nat)
+    (h : ∀ x, x ∈ l ∨ x ∈ acc → key' (f x) = key x) :
+    (l.map f).foldl (fun acc e => insertDesc key' e acc) (acc.map f) = (l.foldl (fun acc e => insertDesc key e acc) acc).map f := by
+  induction l generalizing acc with
+  | nil => rfl
+  | cons e l ih =>
+    simp only [List.map_cons, List.foldl_cons]
+    rw [insertDesc_map key key' f e acc (fun x hx => h x (by rcases hx with hx | hx; exact Or.inl (by simp [hx]); exact Or.inr hx))]
+    apply ih
+    intro x hx
+    rcases hx with hx | hx
+    · exact h x (Or.inl (List.mem_cons_of_mem _ hx))
+    · rcases (insertDesc_mem key e acc x).mp hx with h1 | h1
+      · exact h x (Or.inl (by simp [h1]))
+      · exact h x (Or.inr h1)
+
+/-- **C12 (the rotation system `cut_boundaries` / any edge deletion recomputes)**: at every vertex, the incident-edge row of
+    the thinned, *renumbered* lattice is the old row with the deleted edges dropped and the survivors renamed to their new
+    indices — the cyclic order of the surviving edges is untouched (no incident edge of zero length). -/
+theorem rotAt_thin (L : Lat) (keep : Nat → Bool) (v : Nat) (hnz : ∀ e ∈ incident L v, outVec L v e ≠ (0, 0)) :
+    rotAt (thin L keep) v = ((rotAt L v).filter keep).map (rank keep) := by
+  rw [← rotAt_thinned L v keep hnz]
+  unfold rotAt
+  rw [thin_incident]
+  have := foldl_insertDesc_map (outVec L v) (outVec (thin L keep) v) (rank keep) ((incident L v).filter keep) []
+    (fun x hx => by
+      rcases hx with hx | hx
+      · exact thin_outVec L keep v x (List.mem_filter.mp hx).2
+      · cases hx)
+  simpa using this
+
+theorem rotAt_cut (L : Lat) (bx bY : Bool) (v : Nat) (hnz : ∀ e ∈ incident L v, outVec L v e ≠ (0, 0)) :
+    rotAt (cut L bx bY) v = ((rotAt L v).filter (cutKeep L bx bY)).map (rank (cutKeep L bx bY)) :=
+  rotAt_thin L _ v hnz
+
+/-- non-vacuity: a triangle with a chord-like extra edge; deleting edge 1 renumbers edges 2, 3 to 1, 2 -/
+def exT : Lat := { nV := 3, edges := [(0, 1), (1, 2), (2, 0), (0, 2)], cross := [(0, 0), (0, 0), (0, 0), (1, 0)],
+                   pos := [(0, 0), (4, 0), (1, 4)], scale := 8 }
+example : rotAt (thin exT (fun e => e != 1)) 2 = [1, 2] ∧ rotAt exT 2 = [1, 2, 3] ∧ rank (fun e => e != 1) 3 = 2 := by decide +kernel
+
+end Renumbered
+
 end C12
